@@ -208,7 +208,7 @@ def m_step(ctx, cov_type):
         return r
 
     def on_interp(I):
-        I.loopspecs[(CL, f"{GM}._compute_covariances")] = {i: LoopSpec(cov_inv, label="covariances", hints=cov_hints) for i in range(4)}
+        I.loopspecs[(CL, f"{GM}._compute_covariances")] = {i: LoopSpec(cov_inv, label="covariances", hints=cov_hints, reads_env=True) for i in range(4)}
     res = ctx.verify(cov_type, CL, f"{GM}._m_step", setup, post, registry={(CL, f"{GM}._compute_covariances"): "inline"},
                      on_interp=on_interp, replayer="c15_gmm", allowed_raises=())
     return res
@@ -579,11 +579,11 @@ def hier_fit(ctx, normalize, min_points_given):
     def on_interp(I):
         pass
 
-    loops = {0: LoopSpec(inv_outer, label="split-search", fresh={"clusters": fresh_clusters},
+    loops = {0: LoopSpec(inv_outer, label="split-search", reads_env=True, fresh={"clusters": fresh_clusters},
                          variant=(lambda v: ("int", info["maxit"] - to_z3(v.state.env["iteration"], "int"))) if ctx.prop == "C18" else None),
-             1: LoopSpec(inv_inner, label="candidates", fresh={"best_split": fresh_split, "best_parent_idx": fresh_optint("best_parent_idx"),
+             1: LoopSpec(inv_inner, label="candidates", reads_env=True, fresh={"best_split": fresh_split, "best_parent_idx": fresh_optint("best_parent_idx"),
                                                                 "best_bic_threshold": lambda st: fresh_scalar("real", "thr")}),
-             2: LoopSpec(inv_label, label="labelling", fresh={"cluster_centers": ("list", "array", "real", None),
+             2: LoopSpec(inv_label, label="labelling", reads_env=True, fresh={"cluster_centers": ("list", "array", "real", None),
                                                                "cluster_covariances": ("list", "array", "real", None)})}
 
     class _F(dict):
@@ -996,9 +996,9 @@ def gm_fit_state(ctx):
            (CL, f"{GM}._compute_lower_bound"): h_lb}
     ex = {("const", "numpy.inf"): lambda I, st: st.ghost["__INF__"], "numpy.random.RandomState": lambda I, st, args, kw, node: Opaque("rng")}
     ctx.verify("", CL, f"{GM}.fit", setup, post, registry=reg, extras=ex, replayer="c15_gmm", allowed_raises=(),
-               loops={0: LoopSpec(inv_outer, label="restarts", fresh={"best_params": fresh_best, "covariances": three("covariances"),
+               loops={0: LoopSpec(inv_outer, label="restarts", reads_env=True, fresh={"best_params": fresh_best, "covariances": three("covariances"),
                                                                       "means": three("means"), "weights": three("weights")}),
-                      1: LoopSpec(inv_inner, label="em", fresh={"covariances": three("covariances"), "means": three("means"),
+                      1: LoopSpec(inv_inner, label="em", reads_env=True, fresh={"covariances": three("covariances"), "means": three("means"),
                                                                 "weights": three("weights")})})
 
 
